@@ -672,7 +672,8 @@ func (loader *Loader) resolveRef(ref string, path *url.URL) (string, *url.URL, e
 		return "", nil, err
 	}
 
-	fragment := "#" + resolvedPathRef.Fragment
+	// escaped again: the reference goes through url.Parse once more, and a pointer token may hold a percent sign
+	fragment := "#" + resolvedPathRef.EscapedFragment()
 	resolvedPathRef.Fragment = ""
 	return fragment, resolvedPathRef, nil
 }
